@@ -118,6 +118,9 @@ def witnesses(func_result, ob, repo_root, tier):
 
 def replay(entry, repo_root):
     r = entry.get('replay') or {}
+    if r.get('kind') == 'stdin':
+        f = _run_stdin((r['fmt'], bytes.fromhex(r['hex']), r['pos'], repo_root))
+        return f[0]['what'] if f else None
     if r.get('kind') == 'corrupt':
         data = bytes.fromhex(r['hex']) if 'hex' in r else r['text'].encode('utf-8')
         f = _run((r['fmt'], data, r['pos'], r.get('extra') or []))
@@ -158,8 +161,43 @@ def _run(job):
     return fails
 
 
+def _run_stdin(job):
+    """The malformed document arrives on standard input ('-' in either position): the real command in a subprocess."""
+    import subprocess
+    import sys
+    fmt, text, pos, repo = job
+    tf = gt.TempFiles()
+    fails = []
+    try:
+        good_text = GOOD.get(fmt) or plistlib.dumps([1]).decode()
+        good = tf.write(good_text, SUFFIX[fmt])
+        argv = (['-', good] if pos == 0 else [good, '-']) + ['--no-status', '--no-color', f'--from-{fmt}', f'--to-{fmt}']
+        env = dict(os.environ)
+        env['PYTHONPATH'] = repo + os.pathsep + env.get('PYTHONPATH', '')
+        p = subprocess.run([sys.executable, '-m', 'graphtage'] + argv, input=text, env=env, capture_output=True, timeout=100)
+        err, out = p.stderr.decode('utf-8', 'replace'), p.stdout.decode('utf-8', 'replace')
+        cls = None
+        if 'Traceback (most recent call last)' in err:
+            last = [ln for ln in err.strip().splitlines() if ln.strip()]
+            cls, what = f'c20-uncaught:{fmt}:stdin', f"uncaught exception: {last[-1][:160] if last else ''}"
+        elif p.returncode == 0:
+            cls, what = f'c20-exit-status:{fmt}', "exit status 0 for a malformed document"
+        elif 'Error parsing' not in err:
+            cls, what = f'c20-no-message:{fmt}', f"no 'Error parsing <file>' message on stderr: {err[-200:]!r}"
+        elif out.strip():
+            cls, what = f'c20-diff-printed:{fmt}', f"stdout is not empty: {out[:80]!r}"
+        if cls:
+            fails.append({'what': f"{what} [{fmt} document on standard input as {'first' if pos == 0 else 'second'} argument: {text[:70]!r}]", 'class': cls,
+                          'input': {'fmt': fmt, 'bytes': repr(text), 'pos': pos, 'stdin': True},
+                          'replay': {'kind': 'stdin', 'fmt': fmt, 'hex': text.hex(), 'pos': pos}})
+    finally:
+        tf.cleanup()
+    return fails
+
+
 def bounded(tier, seed, repo_root):
     jobs = []
+    sjobs = []
     rejected = 0
     corp = dict(CORPUS)
     corp['plist'] = _plist_corpus()
@@ -187,17 +225,20 @@ def bounded(tier, seed, repo_root):
                 rejected += 1
                 jobs.append((fmt, c, 0))
                 jobs.append((fmt, c, 1))
+                if rejected % (11 if tier == 'quick' else 3) == 0 or (any(b >= 0x80 for b in c[-2:]) and rejected % 2 == 0):
+                    sjobs.append((fmt, c, rejected % 2, repo_root))       # (incl. cuts inside multi-byte characters)
                 if rejected % 7 == 0:
                     # the message must not depend on the verbosity options
                     jobs.append((fmt, c, rejected % 2, ['--quiet']))
                     jobs.append((fmt, c, (rejected + 1) % 2, ['--log-level', 'CRITICAL']))
     res = pmap(_run, jobs, repo_root, job_timeout=60, on_timeout=timeout_failure('C20'))
     fails = [f for fs in res for f in fs]
+    fails += [f for fs in pmap(_run_stdin, sjobs, repo_root, chunksize=2, job_timeout=150, on_timeout=timeout_failure('C20')) for f in fs]
     return [{
         'name': 'C20.fault-enumeration', 'bound': f"{sum(len(v) for v in corp.values())} valid documents over json/json5/yaml/xml/html/"
         f"plist; byte-level truncation at every {'2nd ' if stride == 2 else ''}byte (every byte for short files, cutting inside multi-byte characters), deletion/duplication of every "
-        f"delimiter, doubled brackets/tags; kept only if an independent parser rejects ({rejected} corruptions); both positions",
-        'evaluations': len(jobs), 'distinct_nontrivial': rejected, 'exhaustive': stride == 1,
+        f"delimiter, doubled brackets/tags; kept only if an independent parser rejects ({rejected} corruptions); both positions; {len(sjobs)} of them also piped to the real command on standard input ('-')",
+        'evaluations': len(jobs) + len(sjobs), 'distinct_nontrivial': rejected, 'exhaustive': stride == 1,
         'rule': 'corrupted file x position -> main(): message naming the file on stderr, empty stdout, non-zero status, no '
                 'uncaught exception; non-trivial = corruption rejected by the independent parser',
         'failures': fails, 'samples': [{'fmt': j[0], 'bytes': repr(j[1][:60]), 'pos': j[2]} for j in jobs[50:53]],
